@@ -398,6 +398,17 @@ class Program:
                     r = self.resolve_name_expr(m, node.value.func)
                     if isinstance(r, ClassInfo):
                         cands.setdefault(t.id, []).append(r)
+        # locals bound to an attribute chain of known type:  f_logger = self.function_logger
+        for _round in range(2):
+            cur = {k: v[0] for k, v in cands.items() if v}
+            for node in ast.walk(fn.node):
+                if isinstance(node, ast.Assign) and len(node.targets) == 1 and isinstance(node.targets[0], ast.Name) and isinstance(node.value, (ast.Attribute, ast.Name)):
+                    t = node.targets[0].id
+                    if t in cands:
+                        continue
+                    r = self.expr_class(fn, node.value, cur)
+                    if r is not None:
+                        cands.setdefault(t, []).append(r)
         out = {}
         for k, lst in cands.items():
             common = None
